@@ -342,9 +342,13 @@ def eoo_region(mode):
 EOO_REGION = [eoo_region('complete'), eoo_region('partial')]
 
 OID_DEC = [payload(
-    'ObjectIdentifierPayloadDecoder', mode, properties=['C08', 'C01', 'C07'],
+    'ObjectIdentifierPayloadDecoder', mode, properties=['C08', 'C01', 'C07', 'C10'],
     yield_ensures=[('consumed', CONSUMED),
-                   ('first-arc-split', 'last_yield().value[0] == 0 or last_yield().value[0] == 1 or last_yield().value[0] == 2')],
+                   ('first-arc-split', 'last_yield().value[0] == 0 or last_yield().value[0] == 1 or last_yield().value[0] == 2'),
+                   # X.690 8.19.4: the first subidentifier is 40 * X + Y with Y <= 39 under X = 0 and X = 1 (C10: an OID
+                   # 1.40.x has no encoding -- the library's own encoder refuses it)
+                   ('second-arc-below-40-under-0-and-1', 'last_yield().value[0] <= 1 ==> '
+                                                          '(last_yield().value[1] >= 0 and last_yield().value[1] <= 39)')],
     exit_ensures=[('one-result', 'nyields() == 1')],
     # kind B (C08): nothing but library errors escapes -- in particular no IndexError from chunk[index] / oid[0]
     may_raise={'PyAsn1Error': True},
